@@ -392,6 +392,34 @@ func TestVerif_C01(t *testing.T) {
 	})
 	_ = swept
 
+	// (3) end to end: EVENT frames over real WebSocket connections behind Relay.ServeHTTP
+	// (the gate the property is anchored in): genuine hostile events must reach the
+	// handler, unsigned / altered (also after the genuine one was admitted) /
+	// wrong-canonicalisation / unparsable-key events must not
+	nE2E := vk.N(40, 600)
+	vk.ParallelW(8, nE2E, func(i int) {
+		if rep.Violations() >= 3 {
+			return
+		}
+		r := vk.RNG("C01/e2e", i)
+		var frames []c12Frame
+		for _, f := range c12Frames(r, 1_000_000+i, nil) {
+			if strings.HasPrefix(f.class, "valid/EVENT") || strings.HasPrefix(f.class, "forged/") {
+				frames = append(frames, f)
+			}
+		}
+		if len(frames) < 4 {
+			return
+		}
+		before := rep.Violations()
+		c12Connection(rep, i, r, frames, "relay/")
+		if rep.Violations() == before {
+			rep.Count("e2e_connections", 1)
+			rep.Count("e2e_event_frames", int64(len(frames)))
+			rep.Eval(len(frames))
+		}
+	})
+	rep.Require(rep.Counter("e2e_connections") >= int64(nE2E/2), "end-to-end connections")
 	rep.Require(rep.Counter("signed_events") >= int64(n), "signed events")
 	rep.Require(rep.Counter("code_points_swept") >= 63488, "BMP sweep incomplete")
 	rep.Require(rep.SetSize("tamper_classes") >= 20, "tamper classes")
